@@ -19,7 +19,7 @@ RULE = ('fault histories of up to 70 operations on a full in-process client (har
         'a case is non-trivial when it contains a fault or a close and at least one registration; distinct = distinct histories')
 ASSUMPTIONS = [
     'driver events are well formed (ASCII strings, counter ids inside the counters buffer, existing log file, exclusive-publication answers '
-    'with registration id = correlation id, known message type ids - C14); error code 4 (channel endpoint) is not generated',
+    'with registration id = correlation id, known message type ids - C14); an ErrorResponse with error code 4 (channel endpoint error) carries a channel status indicator id in its correlation-id field (generated: ids of live resources, other ids, ids that only agree as i32)',
     'the command ring either has room or (SetRingFull) refuses every command - its capacity arithmetic is C06\'s; strings fit the 512-byte scratch buffer (C13); callbacks do not call back into the client',
     'the clock stays below 2^62 and above the linger time-out, so that now_ms - linger does not underflow (C11/C12)',
     'one thread drives the client: real scheduling of the agent thread against API threads and lock-order questions are outside the model',
